@@ -302,9 +302,182 @@ def c01():
     print("C01_chains: %d packages, %d theorems" % (len(pk), len(C01_GENERIC_THMS) + len(audit) + 1))
 
 
+# ------------------------------------------------------------------------------------------------ C06
+
+C06_HEAD = r"""import GnarkVerif.Proofs.Chain
+import GnarkVerif.Gen.Chains.Tower
+import GnarkVerif.Gen.CurveConsts
+import Mathlib.Algebra.Group.Int.Defs
+import Mathlib.Algebra.Group.TypeTags.Basic
+""" + NOTE + r"""/-
+C06 (tie T for the cyclotomic exponentiation chains) — `Expt`, `ExptHalf`, `ExptMinus1`, `ExptMinus1Squared` / `ExptMinus1Square`,
+`ExptPlus1`, `ExptSquarePlus1`, `ExptMinus1Div3`, `Expc1`, `Expc2` of ecc/<curve>/internal/fptower/e{12,24,6}_pairing.go of the 7
+pairing curves, re-translated on every run by tools/goslp/chains.go into chain DATA (Gen/Chains/Tower.lean): ops `Mul`,
+`CyclotomicSquare` / `Square`, `nSquare(n)`, `nSquareCompressed(n)`, `DecompressKarabina` / `BatchDecompressKarabina`,
+`Conjugate`, `Set`, calls of another chain (inlined). Every function is translated twice: called with distinct variables
+(`F`) and in place, `v.F(&v)` (`F_inplace`, receiver and argument are ONE register; pairing.go does call them in place).
+
+(a) `C06_chain_cyclotomic` (once, for every chain): let `rep t g` say "the tower value t represents the element g of a group G"
+    (G = the cyclotomic subgroup) and `crep t g` "the four coordinates of t kept by Karabina's compression are those of g".
+    If Mul / CyclotomicSquare / Conjugate / CyclotomicSquareCompressed / DecompressKarabina realise g·h, g·g, g⁻¹, g·g (on
+    compressed forms), the identity (compressed → full), then a chain with exponent reading `expoInt c = some k ∈ ℤ` maps a
+    representation of g to a representation of g^k. The exponent reading also checks that no register is read before it is
+    written and that a compressed value is only squared (compressed), conjugated, copied or decompressed.
+    The hypotheses are what C06 establishes for the translated tower code on the cyclotomic subgroup:
+    `E12.Mul_spec` (product), `E12.CyclotomicSquare_spec` (x cyclotomic → x·x), `E12.Conjugate_spec` (= conj, the inverse on
+    x·x̄ = 1), `E12.CyclotomicSquareCompressed_eq` (the four kept coordinates are those of CyclotomicSquare),
+    `E12.DecompressKarabina_general_partial` / `_g2_zero` (PARTIAL, see Props/C06.lean) — they are NOT discharged here.
+    `C06_chain_group`: the same with functions on the group itself.
+(b) per curve, by `decide +kernel` on the regenerated chains and the regenerated seed `GV.Gen.CurveConsts.<curve>.xGen` = |x₀|
+    (Props/C03_gen*: `seed_doc` relates it to the package comment, the seed relations to p and r): with t = ±xGen as the
+    code has it, Expt = t, ExptHalf = t/2, ExptMinus1 = t−1, ExptMinus1Squared = (t−1)², ExptPlus1 = t+1,
+    ExptSquarePlus1 = t²+1, ExptMinus1Div3 = (t−1)/3 (with 3 ∣ t−1); Expc1 / Expc2 are the small cofactor exponents stated
+    in their Go comments (literals). The in-place variants have the same exponents.
+-/
+namespace GV.Chain
+
+/-! ## (a) generic -/
+
+section
+variable {T G : Type} [Group G]
+
+theorem C06_chain_cyclotomic (o : Ops T) (rep crep : T → G → Prop)
+    (hw : ∀ t g, rep t g → crep t g)
+    (hmul : ∀ a b g h, rep a g → rep b h → rep (o.mul a b) (g * h))
+    (hsq : ∀ a g, rep a g → rep (o.sq a) (g * g))
+    (hconj : ∀ a g, rep a g → rep (o.inv a) g⁻¹)
+    (hconjC : ∀ a g, crep a g → crep (o.inv a) g⁻¹)
+    (hsqc : ∀ a g, crep a g → crep (o.sqc a) (g * g))
+    (hdec : ∀ a g, crep a g → rep (o.dec a) g)
+    (c : Chain) (k : Int) (hk : expoInt c = some k) (x : T) (g : G) (hx : rep x g) :
+    rep (eval o c x) (g ^ k) := by
+  have S : Sim intDom o (fun t e => rep t (g ^ e)) (fun t e => crep t (g ^ e)) :=
+    { weaken := fun t e h => hw t _ h
+      mul := by
+        intro a b e f ha hb
+        show rep (o.mul a b) (g ^ (e + f))
+        rw [zpow_add]; exact hmul a b _ _ ha hb
+      sq := by
+        intro a e ha
+        show rep (o.sq a) (g ^ (2 * e))
+        rw [Int.two_mul, zpow_add]; exact hsq a _ ha
+      invF := by
+        intro ng h a e ha; cases h
+        show rep (o.inv a) (g ^ (-e))
+        rw [zpow_neg]; exact hconj a _ ha
+      invC := by
+        intro ng h a e ha; cases h
+        show crep (o.inv a) (g ^ (-e))
+        rw [zpow_neg]; exact hconjC a _ ha
+      sqc := by
+        intro a e ha
+        show crep (o.sqc a) (g ^ (2 * e))
+        rw [Int.two_mul, zpow_add]; exact hsqc a _ ha
+      dec := fun a e ha => hdec a _ ha }
+  exact S.eval_spec c k hk x (by show rep x (g ^ (1 : Int)); rw [zpow_one]; exact hx)
+
+/-- the same with operations on the group itself -/
+theorem C06_chain_group (o : Ops G)
+    (hmul : ∀ a b, o.mul a b = a * b) (hsq : ∀ a, o.sq a = a * a) (hconj : ∀ a, o.inv a = a⁻¹)
+    (hsqc : ∀ a, o.sqc a = a * a) (hdec : ∀ a, o.dec a = a)
+    (c : Chain) (k : Int) (hk : expoInt c = some k) (x : G) : eval o c x = x ^ k :=
+  (group_sim o x hmul hsq hconj hsqc hdec).eval_spec c k hk x (zpow_one x).symm
+
+end
+
+/-- non-vacuity: x ↦ x^(-3) the way bw6-633 `Expc1` does it, run in the group `Multiplicative ℤ` -/
+def toyNeg3 : Chain := { nregs := 3, out := 1, steps := [.sq 2 0 1, .mul 2 0 2, .inv 1 2] }
+example : expoInt toyNeg3 = some (-3) := by decide
+example (x : Multiplicative ℤ) : eval (groupOps _) toyNeg3 x = x ^ (-3 : ℤ) :=
+  C06_chain_group _ (fun _ _ => rfl) (fun _ => rfl) (fun _ => rfl) (fun _ => rfl) (fun _ => rfl) toyNeg3 (-3) (by decide) x
+example : eval (groupOps (Multiplicative ℤ)) toyNeg3 (Multiplicative.ofAdd 5) = Multiplicative.ofAdd (-15) := by decide
+/-- a compressed value must be decompressed before it is multiplied; a chain that does not is rejected -/
+example : expoInt { nregs := 3, out := 1, steps := [.sqc 2 0 4, .mul 1 2 0] } = none := by decide
+example : expoInt { nregs := 3, out := 1, steps := [.sqc 2 0 4, .dec 2 2, .mul 1 2 0] } = some 17 := by decide
+example {T G : Type} [Group G] (o : Ops T) (rep crep : T → G → Prop) (hw : ∀ t g, rep t g → crep t g)
+    (hmul : ∀ a b g h, rep a g → rep b h → rep (o.mul a b) (g * h)) (hsq : ∀ a g, rep a g → rep (o.sq a) (g * g))
+    (hconj : ∀ a g, rep a g → rep (o.inv a) g⁻¹) (hconjC : ∀ a g, crep a g → crep (o.inv a) g⁻¹)
+    (hsqc : ∀ a g, crep a g → crep (o.sqc a) (g * g)) (hdec : ∀ a g, crep a g → rep (o.dec a) g)
+    (x : T) (g : G) (hx : rep x g) :
+    rep (eval o { nregs := 3, out := 1, steps := [.sqc 2 0 4, .dec 2 2, .mul 1 2 0] } x) (g ^ (17 : ℤ)) :=
+  C06_chain_cyclotomic o rep crep hw hmul hsq hconj hconjC hsqc hdec _ 17 (by decide) x g hx
+
+/-! ## (b) per curve -/
+
+open GV.Gen.Chains.Tower
+"""
+
+# exponent of each function in terms of t (the signed seed as the code has it)
+C06_EXPR = {
+    "Expt": ("t", None),
+    "ExptHalf": ("t / 2", "t % 2 = 0"),
+    "ExptMinus1": ("t - 1", None),
+    "ExptMinus1Squared": ("(t - 1) ^ 2", None),
+    "ExptMinus1Square": ("(t - 1) ^ 2", None),
+    "ExptPlus1": ("t + 1", None),
+    "ExptSquarePlus1": ("t ^ 2 + 1", None),
+    "ExptMinus1Div3": ("(t - 1) / 3", "(t - 1) % 3 = 0"),
+}
+# cofactor exponents as documented in the Go comments of e6_pairing.go
+C06_LIT = {("bw6_633", "Expc1"): "-3", ("bw6_633", "Expc2"): "13", ("bw6_761", "Expc1"): "11", ("bw6_761", "Expc2"): "103"}
+
+
+def tower_chains():
+    s = open(os.path.join(GEN, "Chains", "Tower.lean")).read()
+    pk = {}
+    for m in re.finditer(r'\("(\w+)", "(\w+)", ', s):
+        pk.setdefault(m.group(1), []).append(m.group(2))
+    return pk
+
+
+def seed_signs():
+    s = open(os.path.join(GEN, "CurveConsts.lean")).read()
+    out = {}
+    for m in re.finditer(r'^namespace (\w+)\n(.*?)^end \1', s, re.M | re.S):
+        d = re.search(r'def docSeed : Int := \(?(-?\d+)\)?', m.group(2))
+        x = re.search(r'def xGen : Int := \(?(-?\d+)\)?', m.group(2))
+        if d and x:
+            out[m.group(1)] = "-" if int(d.group(1)) < 0 else "+"
+    return out
+
+
+def c06():
+    pk = tower_chains()
+    sg = seed_signs()
+    body, audit = [], []
+    for curve, fns in pk.items():
+        t = ("(-GV.Gen.CurveConsts.%s.xGen)" if sg[curve] == "-" else "GV.Gen.CurveConsts.%s.xGen") % curve
+        body.append("namespace %s\n/-- the seed as the code has it: t = %sxGen -/\nabbrev t : Int := %s\n" % (curve, "−" if sg[curve] == "-" else "", t))
+        for fn in fns:
+            base = fn[:-len("_inplace")] if fn.endswith("_inplace") else fn
+            if (curve, base) in C06_LIT:
+                expr, side = C06_LIT[(curve, base)], None
+                doc = "`%s` raises to the cofactor exponent %s of its Go comment" % (fn, expr)
+            elif base in C06_EXPR:
+                expr, side = C06_EXPR[base]
+                doc = "`%s` raises to `%s`" % (fn, expr)
+            else:
+                sys.exit("mkchains: %s.%s: add the expected exponent of this new chain" % (curve, fn))
+            st = "expoInt %s.%s = some (%s)" % (curve, fn, expr)
+            if side:
+                st = side + " ∧ " + st
+            body.append("/-- %s -/\ntheorem %s_expo : %s := by decide +kernel\n" % (doc, fn, st))
+            audit.append("GV.Chain.%s.%s_expo" % (curve, fn))
+        body.append("end %s\n" % curve)
+    tail = ("/-- the chains covered -/\ntheorem C06_chains_functions : GV.Gen.Chains.Tower.towerChains.map (fun e => (e.1, e.2.1)) = [%s] := by decide\n\nend GV.Chain\n"
+            % ", ".join('("%s", "%s")' % (c, f) for c, fns in pk.items() for f in fns))
+    write(os.path.join(PROPS, "C06_chains.lean"), C06_HEAD + "\n".join(body) + "\n" + tail)
+    gen = ["GV.Chain.Sim.eval_spec", "GV.Chain.C06_chain_cyclotomic", "GV.Chain.C06_chain_group"]
+    au = "import GnarkVerif.Props.C06_chains\n" + "".join("#print axioms %s\n" % t for t in gen + audit + ["GV.Chain.C06_chains_functions"])
+    write(os.path.join(AUDIT, "C06_chains.lean"), au)
+    print("C06_chains: %d curves, %d theorems" % (len(pk), len(gen) + len(audit) + 1))
+
+
 # ------------------------------------------------------------------------------------------------ main
 
 if __name__ == "__main__":
-    which = sys.argv[1:] or ["C01"]
+    which = sys.argv[1:] or ["C01", "C06", "C03"]
     if "C01" in which:
         c01()
+    if "C06" in which:
+        c06()
